@@ -93,9 +93,12 @@ Print Assumptions format_results_defined_iff.
    and a share that validates under the cap -- C02, verified_share_is_genuine -- has exactly
    these blocks).
    Full statement: "... and the file can be read from the repaired shares alone".  Proved here:
-   the repaired shares equal the original ones.  Missing for the full statement: completeness of
-   the validation pipeline on genuine shares in every reachable node state (that no check
-   rejects them); it is exercised by the examples below and by the grid runs of the driver
+   the repaired shares equal the original ones, and a download that starts fresh accepts every
+   block of every repaired share (last conjunct; the offsets must pass Share._satisfy_offsets, as
+   those written by WriteBucketProxy do: C01 offsets_layout).  Missing for the full statement:
+   completeness in every later node state (after other shares filled parts of the shared trees)
+   and the decoder's any-k-of-N property (C36) to put the accepted blocks back into the
+   segment; both are exercised by the examples below and by the grid runs of the driver
    (download from the repaired shares alone), not proved. *)
 Theorem repair_output_validates_under_readcap_partial :
   forall (H : Type) (H_eqb : H -> H -> bool) (pair_hash : H -> H -> H) (truthy : H -> bool) (empty_leaf : Z -> H)
@@ -123,8 +126,14 @@ Theorem repair_output_validates_under_readcap_partial :
       let f' := repair_encode enc (c_k c) (c_n c) ss (concat chunks) in
       f' = f /\
       g_cap H pair_hash empty_leaf block_hash seg_hash UB ueb_hash ser_ueb key f' = c /\
-      forall ver o i, g_share H pair_hash empty_leaf block_hash seg_hash UB ser_ueb f' ver o i
-                      = g_share H pair_hash empty_leaf block_hash seg_hash UB ser_ueb f ver o i.
+      (forall ver o i, g_share H pair_hash empty_leaf block_hash seg_hash UB ser_ueb f' ver o i
+                       = g_share H pair_hash empty_leaf block_hash seg_hash UB ser_ueb f ver o i) /\
+      (forall ver o i j ords,
+         check_offsets H UB (g_share H pair_hash empty_leaf block_hash seg_hash UB ser_ueb f' ver o i) = None ->
+         0 <= i < Z.of_N n -> 0 <= j < nseg f ->
+         exists dn', get_block H H_eqb pair_hash truthy block_hash UB ueb_hash parse_ueb c (node_init H c) i j
+                               (g_share H pair_hash empty_leaf block_hash seg_hash UB ser_ueb f' ver o i) ords
+                     = (dn', GBlock (gblock f i j))).
 Proof. exact repair_equals_original. Qed.
 Print Assumptions repair_output_validates_under_readcap_partial.
 
